@@ -37,7 +37,7 @@ pub mod verif {
     pub use super::{
         live::{
             verif::{set_dial_log, take_dials, Dial},
-            LiveActor, ToLiveActor,
+            LiveActor, SyncReport, ToLiveActor,
         },
         state::VerifPeerSnapshot,
     };
